@@ -227,6 +227,8 @@ func (g *c19Gen) al() *sx {
 	return sxList("al", g.period(), sxAtom(g.pickS("~", "~", "linear", "forwardFill")))
 }
 
+func (g *c19Gen) pick1(xs ...*sx) *sx { return xs[g.r.Intn(len(xs))] }
+
 func (g *c19Gen) decConst() *sx {
 	return sxList("const", sxAtom("decimal"), g.dec(-4, 6), sxAtom("1"), sxAtom(g.unit()))
 }
@@ -342,8 +344,13 @@ func (g *c19Gen) ds(depth int) (*sx, c19Col) {
 		u := g.urn()
 		m := g.mds(depth - 1)
 		empty := sxAtom("~")
-		if g.r.Intn(3) == 0 {
+		switch g.r.Intn(9) {
+		case 0, 1, 2:
 			empty = g.decConst()
+		case 3:
+			// a fallback that is not a static value (a cast of a constant, nvl, ref): both engines must treat it alike
+			// (the directly assembled one refuses it when executed)
+			empty = g.pick1(sxList("cast", g.decConst(), sxAtom("decimal")), sxList("nvl", g.decConst(), g.decConst()), sxList("ref"))
 		}
 		rt := g.pickS("sum", "avg", "min", "max", "count")
 		dt := "decimal"
